@@ -1,7 +1,8 @@
 #!/venv/bin/python
 """Run the registered checks against the seeded changes under /verif/seeded/<id>/ (patch.diff, demo*.py, meta.json).
 
-usage: run_seeded.py [--tier quick|thorough] [--demo] [id ...]
+usage: run_seeded.py [--tier quick|thorough] [--demo] [--all-checks [--jobs N]] [id ...]
+(--all-checks: run EVERY registered check against each change, N at a time, and write the matrix seeded/MATRIX.md)
 For each seeded change: make sure /repo is clean, `git -C /repo apply patch.diff`, (optionally run the demonstration),
 run ./check <P> for every P in meta["checks"] (default: the property it breaks), record exit code and VIOLATION lines,
 and ALWAYS undo the change (`git -C /repo checkout -- .`).  Results go to seeded/<id>/result.json and seeded/RESULTS.md.
@@ -15,6 +16,7 @@ import time
 VERIF = os.path.dirname(os.path.dirname(os.path.abspath(__file__)))
 REPO = '/repo'
 SEEDED = os.path.join(VERIF, 'seeded')
+ALL_PROPS = ['C%02d' % i for i in range(1, 21)]
 
 
 def sh(cmd, **kw):
@@ -30,6 +32,8 @@ def repo_clean():
 def main(argv):
     tier = 'quick'
     demo = False
+    all_checks = False
+    jobs = 6
     ids = []
     i = 0
     while i < len(argv):
@@ -39,11 +43,17 @@ def main(argv):
         elif argv[i] == '--demo':
             demo = True
             i += 1
+        elif argv[i] == '--all-checks':
+            all_checks = True
+            i += 1
+        elif argv[i] == '--jobs':
+            jobs = int(argv[i + 1])
+            i += 2
         else:
             ids.append(argv[i])
             i += 1
     if not ids:
-        ids = sorted(d for d in os.listdir(SEEDED) if os.path.isdir(os.path.join(SEEDED, d)))
+        ids = sorted(d for d in os.listdir(SEEDED) if os.path.isfile(os.path.join(SEEDED, d, 'meta.json')))
     if not repo_clean():
         print('refusing to run: /repo has uncommitted changes to tracked files')
         return 2
@@ -52,6 +62,8 @@ def main(argv):
         d = os.path.join(SEEDED, sid)
         meta = json.load(open(os.path.join(d, 'meta.json')))
         checks = meta.get('checks') or [meta['property']]
+        if all_checks:
+            checks = ALL_PROPS
         rc, out = sh(['git', '-C', REPO, 'apply', '--3way', os.path.join(d, 'patch.diff')])
         if rc != 0:
             rc, out = sh(['git', '-C', REPO, 'apply', os.path.join(d, 'patch.diff')])
@@ -66,19 +78,28 @@ def main(argv):
                             drc, dout = sh(['/venv/bin/python', os.path.join(d, f)], env=dict(os.environ, PYTHONPATH=REPO),
                                            timeout=600)
                             res.setdefault('demo', {})[f] = {'rc': drc, 'tail': dout[-300:]}
-                for p in checks:
+                def one(p):
                     t0 = time.time()
                     crc, cout = sh([os.path.join(VERIF, 'check'), p, '--tier', tier], cwd=VERIF, timeout=7200,
                                    env=dict(os.environ, VERIF_EVIDENCE_DIR=os.path.join(SEEDED, '.evidence_scratch')))
                     viol = [l for l in cout.splitlines() if l.startswith('VIOLATION')]
-                    res['checks'][p] = {'rc': crc, 'violations': viol[:5], 'wall_s': round(time.time() - t0, 1),
-                                        'concrete': any('no-failing-input-found' not in v for v in viol),
-                                        'tail': cout[-600:]}
+                    return p, {'rc': crc, 'violations': viol[:5], 'wall_s': round(time.time() - t0, 1),
+                               'concrete': any('no-failing-input-found' not in v for v in viol),
+                               'tail': cout[-600:]}
+                if all_checks:
+                    one(meta['property'])      # first alone: it rebuilds whatever the change invalidates
+                    from concurrent.futures import ThreadPoolExecutor
+                    with ThreadPoolExecutor(jobs) as pool:
+                        for p, r in pool.map(one, checks):
+                            res['checks'][p] = r
+                else:
+                    for p in checks:
+                        res['checks'][p] = one(p)[1]
         finally:
             sh(['git', '-C', REPO, 'reset', '-q'])
             sh(['git', '-C', REPO, 'checkout', '--', '.'])
         res['detected'] = any(c['rc'] == 1 and c['violations'] for c in res['checks'].values())
-        with open(os.path.join(d, 'result.json'), 'w') as fh:
+        with open(os.path.join(d, 'matrix.json' if all_checks else 'result.json'), 'w') as fh:
             json.dump(res, fh, indent=1)
         rows.append(res)
         print(f"{sid}: applied={res['applied']} detected={res['detected']} "
@@ -97,6 +118,26 @@ def main(argv):
         lines.append(f"| {sid} | {r['property']} | {r['applied']} | {'yes' if r['detected'] else 'NO'} | {by} |")
     with open(os.path.join(SEEDED, 'RESULTS.md'), 'w') as fh:
         fh.write('\n'.join(lines) + '\n')
+    # the matrix over all checks, for the changes that have one
+    mats = []
+    for sid in sorted(os.listdir(SEEDED)):
+        mp = os.path.join(SEEDED, sid, 'matrix.json')
+        if os.path.exists(mp):
+            mats.append(json.load(open(mp)))
+    if mats:
+        out = ['# Every registered check against every seeded change (generated by tools/run_seeded.py --all-checks)', '',
+               'V = VIOLATION with a concrete replay, v = VIOLATION ... no-failing-input-found (a proof or the correspondence broke, '
+               'no failing input of THIS property found), . = exit 0, E = exit 2 (internal error).', '',
+               '| change | ' + ' | '.join(p[1:] for p in ALL_PROPS) + ' |', '|---|' + '---|' * len(ALL_PROPS)]
+        for r in mats:
+            row = []
+            for p in ALL_PROPS:
+                c = r['checks'].get(p)
+                row.append('?' if c is None else ('V' if c['rc'] == 1 and c['concrete'] else 'v' if c['rc'] == 1 else
+                                                  '.' if c['rc'] == 0 else 'E'))
+            out.append(f"| {r['id']} | " + ' | '.join(row) + ' |')
+        with open(os.path.join(SEEDED, 'MATRIX.md'), 'w') as fh:
+            fh.write('\n'.join(out) + '\n')
     return 0
 
 
